@@ -149,14 +149,17 @@ func New(file io.Reader, profile string) AppArmorLogs {
 			})
 			if len(kv) >= 2 {
 				key, value := kv[0], kv[1]
-				if !strings.HasPrefix(value, `"`) {
+				if strings.HasPrefix(value, `"`) {
+					// Quoted value: only its own pair of quotes is removed
+					value = strings.TrimSuffix(strings.TrimPrefix(value, `"`), `"`)
+				} else {
 					// Hex encoded value holding a double quote: it could not be decoded in the line
 					value = util.DecodeHexField(key, value)
 				}
 				if slices.Contains(toClean, key) {
 					value = regResolveLogs.Replace(value)
 				}
-				aa[key] = strings.Trim(value, `"`)
+				aa[key] = value
 			}
 		}
 		aaLogs = append(aaLogs, aa)
